@@ -128,6 +128,25 @@ def lazyUnsqueeze2 (L : Lazy2 α) (dim : Int) : Option (Lazy2 α) :=
   else
     (allSome (L.members.map fun Li => lazyUnsqueeze Li (nd.toNat : Int))).bind fun ms => lazyStack2 ms (L.sd + 1)
 
+/-- mirrors `_squeeze(dim)` over members that are lazy stacks: a non-singleton dim returns self, the
+singleton outer stack dim returns the only inner stack, any other singleton dim is squeezed inside
+the inner stacks with their own `_squeeze` (which returns their only member when it is their stack
+dim) and the results are stacked again -/
+def lazySqueeze2 (L : Lazy2 α) (dim : Int) : Option (LRes2 α) :=
+  let r : Int := L.batch.length
+  let nd : Int := if dim < 0 then r + dim else dim
+  if nd > r - 1 ∨ nd < 0 then none
+  else
+    let d := nd.toNat
+    if L.batch[d]? ≠ some 1 then some (.lazy L.sd (L.members.map .lazy))
+    else if d = L.sd then (L.members[0]?).map fun Li => .inner (.lazy Li)
+    else if d > L.sd then
+      (allSome (L.members.map fun Li => lazySqueeze Li ((d - 1 : Nat) : Int))).bind fun rs =>
+        (lazyStackR rs (L.sd : Int)).map fun p => .lazy p.1 p.2
+    else
+      (allSome (L.members.map fun Li => lazySqueeze Li (d : Int))).bind fun rs =>
+        (lazyStackR rs ((L.sd - 1 : Nat) : Int)).map fun p => .lazy p.1 p.2
+
 /-- mirrors `_permute` over members that are lazy stacks -/
 def lazyPermute2 (L : Lazy2 α) (dims : List Int) : Option (Lazy2 α) :=
   let r := L.batch.length
